@@ -149,6 +149,7 @@ package plugins
 //@   requires w != nil && r != nil && next != nil && !w.committed && !w.hijacked && maxResponseBody > 0 && maxRequestBody > 0 && maxResponseBody <= 4611686018427387904
 //@   ensures declared_oversize_is_413_before_backend: r.ContentLength > maxRequestBody ==> calls(next) == 0 && w.committed && w.status == 413
 //@   ensures within_limit_reaches_next_once: r.ContentLength <= maxRequestBody ==> calls(next) == 1
+//@   ensures backend_never_reads_more_than_the_limit: r.ContentLength <= maxRequestBody ==> bounded(ptr(r.Body), maxRequestBody)
 //@   ensures response_bounded: w.bodyLen - old(w.bodyLen) <= maxResponseBody || r.ContentLength > maxRequestBody
 //@   modifies *
 
